@@ -431,3 +431,26 @@ Qed.
 
 Lemma default_exts_noslash : Forall bnoslash default_exts.
 Proof. repeat constructor; discriminate. Qed.
+
+(* ------------------------------------------------------------------ the source found for a name is stored under exactly that name *)
+
+Lemma name_eqb_true : forall a b : name, name_eqb a b = true -> a = b.
+Proof. intros a b H. unfold name_eqb in H. destruct (list_eq_dec N.eq_dec a b); [assumption|discriminate]. Qed.
+
+Lemma find_file_exact : forall (T : tree) n ext src, find_file T n ext = Some src -> In (n, ext, src) T.
+Proof.
+  induction T as [|[[n' e'] s'] r IH]; intros n ext src H; simpl in H; [discriminate|].
+  destruct (name_eqb n n' && name_eqb ext e') eqn:E.
+  - apply andb_true_iff in E. destruct E as [E1 E2]. apply name_eqb_true in E1. apply name_eqb_true in E2.
+    inversion H. subst. left. reflexivity.
+  - right. apply IH. exact H.
+Qed.
+
+Theorem find_source_exact : forall (T : tree) exts n ext src,
+  find_source T exts n = Some (ext, src) -> In ext exts /\ In (n, ext, src) T.
+Proof.
+  intros T exts. induction exts as [|e r IH]; intros n ext src H; simpl in H; [discriminate|].
+  destruct (find_file T n e) as [s|] eqn:E.
+  - inversion H. subst. split; [left; reflexivity|]. apply find_file_exact. exact E.
+  - destruct (IH n ext src H) as [H1 H2]. split; [right; exact H1|exact H2].
+Qed.
